@@ -454,6 +454,20 @@ func runBatchMw(ctx *Ctx) {
 			}
 		}
 	}
+	// C15 under item middlewares, small: [set 5 ; (set 6, then every outcome) under every stage kind ; read]
+	for _, k := range []byte{'T', 'M', 'R', 'E', 'P', 'Q'} {
+		for o := 0; o < nOutcomes; o++ {
+			for _, opt := range []uint32{0, 2} {
+				mid := alphabetItem(1, o, true)
+				mid.acts = []bAct{{kind: 's', v: 6}}
+				first, last := alphabetItem(0, oSuccess, true), alphabetItem(2, oSuccess, true)
+				first.acts, last.acts = []bAct{{kind: 's', v: 5}}, []bAct{{kind: 'r'}}
+				q := &bReq{routes: []uint32{1, 2, 3}, ver: liveDefaultVersions()[0], opt: opt, count: 3, items: []bItem{first, mid, last}}
+				bmwCase(ctx, q, []bmwStage{{kind: k, set: map[int]bool{1: true}}}, "exhaustive")
+				bmwCase(ctx, q, []bmwStage{{kind: 'M', set: map[int]bool{1: true}}, {kind: k, set: map[int]bool{1: true}}}, "exhaustive")
+			}
+		}
+	}
 	for i := ctx.N(1500, 20000); i > 0; i-- {
 		n := 1 + r.Intn(7)
 		if r.Chance(1, 5) {
